@@ -15,6 +15,9 @@ func (r *Run) libCall(st *State, fr *Frame, name string, recv Val, args []Val, s
 	e := r.e
 	name = strings.ReplaceAll(name, "github.com/joeycumines/go-bigbuff.", "")
 	// interface methods of the package with an abstract contract or a concrete binding
+	if e.cs.Funcs[name] != nil || e.ifaceBind[name] != "" {
+		r.atCall(st, fr, name, append([]Val{recv}, args...), nil, in)
+	}
 	if blk := e.cs.Funcs[name]; blk != nil {
 		return r.applyIfaceContract(st, fr, name, blk, recv, args, sig, dst, in)
 	}
@@ -340,7 +343,7 @@ func (r *Run) condBroadcast(st *State, fr *Frame, cond T, in ssa.Instruction) {
 		e.emitWith(st, name, "", nil, g, "Broadcast issued while holding the cond's lock (no lost wake-up) at "+e.posOf(in), e.posOf(in), []string{"C05"}, nil)
 		k := "bcast:" + lr.Class + ":" + lr.Base.S
 		st.Counters[k] = App(SInt, "+", r.counter(st, k), IntLit(1))
-		st.Facts["dirty:"+lr.Class+":"+lr.Base.S] = ""
+		delete(st.Facts, "dirty:"+lr.Class+":"+lr.Base.S)
 	}
 }
 
@@ -449,6 +452,8 @@ func (r *Run) applyIfaceContract(st *State, fr *Frame, name string, blk *Block, 
 		}
 		st.assume(c.boolTerm(x))
 	}
+	k := "calls:" + name
+	st.Counters[k] = App(SInt, "+", r.counter(st, k), IntLit(1))
 	var forks []*State
 	if blk.First("maypanic") != nil && r.panicMatters(st) {
 		p := st.clone()
@@ -482,9 +487,13 @@ func (r *Run) applyIfaceContract(st *State, fr *Frame, name string, blk *Block, 
 		res = append(res, v)
 		vars[fmt.Sprintf("ret%d", i)] = SV{V: v, T: sig.Results().At(i).Type()}
 	}
-	k := "calls:" + name
-	st.Counters[k] = App(SInt, "+", r.counter(st, k), IntLit(1))
+	for i, v := range res {
+		st.Ghost[fmt.Sprintf("ires:%s:%d", name, i)] = v
+	}
 	for _, cl := range blk.All("ensures") {
+		if usesPathGhosts(cl.Expr) {
+			continue
+		}
 		x, err := parseSpec(cl.Expr)
 		if err != nil {
 			e.fail("%v", err)
